@@ -299,6 +299,8 @@ mod cliflags {
 			// a file that is watched explicitly (-w FILE): it is let through whatever the ignores and filters say
 			w("proj/by_vcs_project", "x\n");
 			w("explicit_filters", "*.keep\n");
+			// a second watched directory, outside the project origin
+			std::fs::create_dir_all(base.join("other")).unwrap();
 			for (k, _) in std::env::vars_os() {
 				let ks = k.to_string_lossy().to_string();
 				if ks.starts_with("GIT_") || ks.starts_with("WATCHEXEC_") || ks == "APPDATA" || ks == "USERPROFILE" {
@@ -331,6 +333,11 @@ mod cliflags {
 		if case["watchfile"].as_bool().unwrap_or(false) {
 			argv.push("-w".into());
 			argv.push(proj.join("by_vcs_project").into());
+		}
+		let outside = case["outside"].as_bool().unwrap_or(false);
+		if outside {
+			argv.push("-w".into());
+			argv.push(base.join("other").into());
 		}
 		for f in case["flags"].as_array().unwrap() {
 			argv.push(format!("--{}", f.as_str().unwrap()).into());
@@ -376,7 +383,29 @@ mod cliflags {
 		] {
 			sources.insert(src.into(), check(file, create));
 		}
+		// the same probes in the watched directory outside the project origin
+		let mut out = serde_json::Map::new();
+		if outside {
+			let check_out = |name: &str| -> Value {
+				match filterer.check_event(&ev(base.join("other").join(name), create), Priority::Normal) {
+					Ok(b) => json!(b),
+					Err(e) => json!(format!("error: {e}")),
+				}
+			};
+			for (src, file) in [
+				("vcs_project", "by_vcs_project"),
+				("generic_project", "by_generic_project"),
+				("vcs_global", "by_vcs_global"),
+				("app_global", "by_app_global"),
+				("builtin", "by_builtin.pyc"),
+				("plain", "plain.txt"),
+			] {
+				out.insert(src.into(), check_out(file));
+			}
+			out.insert("explicit".into(), check_out(explicit));
+		}
 		json!({
+			"outside": out,
 			"sources": sources,
 			"plain": check("plain.txt", create),
 			"explicit": check(explicit, create),
@@ -781,6 +810,7 @@ mod discover {
 		// the origin-level files
 		let outside = origin.parent().unwrap().to_path_buf();
 		let mut explicit = Vec::new();
+		let mut excludes_path = outside.join("global_excludes");
 		for f in case["exclude"].as_array().unwrap() {
 			let lines: Vec<&str> = f["lines"].as_array().unwrap().iter().map(|l| l.as_str().unwrap()).collect();
 			let content = if lines.is_empty() { String::new() } else { lines.join("\n") + "\n" };
@@ -791,9 +821,17 @@ mod discover {
 					explicit.push(p);
 				}
 				"excludesfile" => {
-					let p = outside.join("global_excludes");
-					std::fs::write(&p, content).unwrap();
-					std::fs::write(origin.join(".git/config"), format!("[core]\n\texcludesFile = {}\n", p.display())).unwrap();
+					// the path is a leaf the specification leaves open: spelled absolutely, or relative to
+					// the home directory (`~/...`, which from_origin() has to interpolate with $HOME)
+					let spelled = if variant % 3 == 1 {
+						let name = format!("excl_{}", tmp.path().file_name().unwrap().to_string_lossy());
+						excludes_path = std::path::PathBuf::from(std::env::var("HOME").unwrap()).join(&name);
+						format!("~/{name}")
+					} else {
+						excludes_path.display().to_string()
+					};
+					std::fs::write(&excludes_path, content).unwrap();
+					std::fs::write(origin.join(".git/config"), format!("[core]\n\texcludesFile = {spelled}\n")).unwrap();
 				}
 				rel_name => {
 					let p = origin.join(rel_name);
@@ -817,7 +855,7 @@ mod discover {
 				(name.clone(), Vec::new(), Some(origin.as_path()))
 			} else if f.path == outside.join("explicit.ignore") {
 				("explicit".into(), Vec::new(), Some(origin.as_path()))
-			} else if f.path == outside.join("global_excludes") {
+			} else if f.path == excludes_path {
 				("excludesfile".into(), Vec::new(), None)
 			} else {
 				(
@@ -917,6 +955,10 @@ mod spawn {
 			"S1" => argv.push(format!("--shell={helper_s}{ws}{}", opt("O1")).into()),
 			_ => argv.push(format!("--shell={ws}{helper_s}{ws}{}{ws}{} ", opt("O1"), opt("O2")).into()),
 		}
+		match case["emit"].as_str().unwrap_or("default") {
+			"default" => {}
+			m => argv.push(format!("--emit-events-to={m}").into()),
+		}
 		argv.push("--".into());
 		argv.push(helper_s.clone().into());
 		for t in c["args"].as_array().unwrap() {
@@ -969,6 +1011,7 @@ mod spawn {
 			"parent_session": report["sid"].as_i64() == Some(i64::from(me.2)),
 			"cwd_ok": report["cwd"].as_str() == Some(&workdir.display().to_string()),
 			"env_ok": report["env"].as_str() == Some(&hex(&envval)),
+			"events_file": report["events_file"],
 		})
 	}
 
@@ -1110,6 +1153,14 @@ fn main() {
 
 	if kind == "cliflags" {
 		cliflags::setup(&scratch);
+	}
+	if kind == "discover" {
+		// an empty home directory: no user-level git configuration, and a place for `~/...` excludes files
+		let home = scratch.canonicalize().unwrap().join("home");
+		std::fs::create_dir_all(&home).unwrap();
+		std::env::set_var("HOME", &home);
+		std::env::remove_var("XDG_CONFIG_HOME");
+		std::env::set_var("GIT_CONFIG_NOSYSTEM", "1");
 	}
 
 	let file = std::fs::File::open(cases_path).expect("cases file");
